@@ -43,6 +43,7 @@ type c09Result struct {
 	used      int64 // bytes the entry point says it consumed (-1: it does not say)
 	delivered int64 // bytes the reader handed out (-1: no reader)
 	err       error
+	neither   bool // the entry point returned a nil value AND a nil error
 }
 
 type c09Counting struct {
@@ -78,39 +79,39 @@ func c09Reader(f func(r io.Reader) (int64, error)) func(b []byte, chunk int) c09
 		case -1:
 			r := bytes.NewReader(b)
 			n, err := f(r)
-			return c09Result{n, int64(len(b) - r.Len()), err}
+			return c09Result{used: n, delivered: int64(len(b) - r.Len()), err: err}
 		case -2:
 			r := bytes.NewBuffer(append([]byte{}, b...))
 			n, err := f(r)
-			return c09Result{n, int64(len(b) - r.Len()), err}
+			return c09Result{used: n, delivered: int64(len(b) - r.Len()), err: err}
 		case -3:
 			under := bytes.NewReader(b)
 			r := bufio.NewReaderSize(under, 16)
 			n, err := f(r)
-			return c09Result{n, int64(len(b) - under.Len() - r.Buffered()), err}
+			return c09Result{used: n, delivered: int64(len(b) - under.Len() - r.Buffered()), err: err}
 		case -4:
 			r := strings.NewReader(string(b))
 			n, err := f(r)
-			return c09Result{n, int64(len(b) - r.Len()), err}
+			return c09Result{used: n, delivered: int64(len(b) - r.Len()), err: err}
 		}
 		r := &c09Counting{r: bytes.NewReader(b), chunk: chunk}
 		n, err := f(r)
-		return c09Result{n, r.n, err}
+		return c09Result{used: n, delivered: r.n, err: err}
 	}
 }
 
 var c09BinEntries = []c09BinEntry{
 	{"NewTxFromBytes", "tx", func(b []byte, _ int) c09Result {
-		_, err := bt.NewTxFromBytes(b)
-		return c09Result{-1, -1, err}
+		tx, err := bt.NewTxFromBytes(b)
+		return c09Result{-1, -1, err, tx == nil && err == nil}
 	}},
 	{"NewTxFromStream", "tx", func(b []byte, _ int) c09Result {
-		_, used, err := bt.NewTxFromStream(b)
-		return c09Result{int64(used), -1, err}
+		tx, used, err := bt.NewTxFromStream(b)
+		return c09Result{int64(used), -1, err, tx == nil && err == nil}
 	}},
 	{"NewTxFromString", "tx", func(b []byte, _ int) c09Result {
-		_, err := bt.NewTxFromString(hex.EncodeToString(b))
-		return c09Result{-1, -1, err}
+		tx, err := bt.NewTxFromString(hex.EncodeToString(b))
+		return c09Result{-1, -1, err, tx == nil && err == nil}
 	}},
 	{"Tx.ReadFrom", "tx", c09Reader(func(r io.Reader) (int64, error) { return new(bt.Tx).ReadFrom(r) })},
 	{"Txs.ReadFrom", "list", c09Reader(func(r io.Reader) (int64, error) { return new(bt.Txs).ReadFrom(r) })},
@@ -231,6 +232,9 @@ func c09JudgeBin(c *mon.Ctx, in *c09Bin) {
 	}
 	if res.delivered > int64(len(b)) {
 		c.Fault("counting reader delivered more than it holds")
+	}
+	if res.neither {
+		c.Violationf("C09:neither-value-nor-error:"+e.name, "%s returned a nil transaction and a nil error; %s", e.name, what)
 	}
 	c09JudgeAlloc(c, e.name, len(b), alloc, what)
 	if res.err != nil {
@@ -624,6 +628,10 @@ var c09Mutations = []struct {
 	{"odd-hex", "abc"},
 	{"odd-hex:non-hex", "zz"},
 	{"odd-hex:empty", ""},
+	{"odd-hex:66-digits", strings.Repeat("ab", 33)},
+	{"odd-hex:128-digits", strings.Repeat("01", 64)},
+	{"odd-hex:4096-digits", strings.Repeat("f0", 2048)},
+	{"odd-hex:62-digits", strings.Repeat("cd", 31)},
 	{"huge-number:1e400", jlit("1e400")},
 	{"huge-number:2^64", jlit("18446744073709551616")},
 	{"huge-number:negative", jlit("-1")},
